@@ -153,6 +153,13 @@ func (e *Env) VF() *starlarkstruct.Module {
 			f.Close()
 			return starlark.None, nil
 		}),
+		"wipe_if": b("wipe_if", func(_ *starlark.Thread, args starlark.Tuple) (starlark.Value, error) {
+			// models a clean-style body (or a full disk): the state directory's temp folder disappears
+			if _, err := os.Stat(filepath.Join(e.Ctl(), "wipe_"+str(args[0]))); err == nil {
+				os.RemoveAll(filepath.Join(root, ".dawn", "build", "temp"))
+			}
+			return starlark.None, nil
+		}),
 		"fail_if": b("fail_if", func(_ *starlark.Thread, args starlark.Tuple) (starlark.Value, error) {
 			if _, err := os.Stat(filepath.Join(e.Ctl(), "fail_"+str(args[0]))); err == nil {
 				return nil, fmt.Errorf("injected failure of %s", str(args[0]))
